@@ -10,6 +10,7 @@ import (
 	"net/http/httptest"
 	"net/url"
 	"os"
+	"reflect"
 	"sort"
 	"strings"
 	"time"
@@ -363,6 +364,16 @@ func model(backoff time.Duration, tier string) *lib.Model[*sys] {
 				}
 			}
 		}
+		// ratings[i] for i < number of servers is rewritten before every use and projected out; the
+		// slice's length and anything beyond the live servers is NOT (stale entries would be read)
+		tail := "?"
+		if r := lib.Field(s.rb, "ratings"); r.IsValid() && r.Kind() == reflect.Slice {
+			n := len(s.members())
+			tail = fmt.Sprintf("len=%d", r.Len())
+			for i := n; i < r.Len(); i++ {
+				tail += fmt.Sprintf(",%v", r.Index(i).Float())
+			}
+		}
 		la := "none"
 		if s.adjusted {
 			if d := now.Sub(s.lastAdjust); d < s.backoff {
@@ -371,7 +382,7 @@ func model(backoff time.Duration, tier string) *lib.Model[*sys] {
 				la = "old"
 			}
 		}
-		return dm.Dump(s.rb) + "|" + timer + "|" + la + fmt.Sprint(s.configured)
+		return dm.Dump(s.rb) + "|" + timer + "|" + tail + "|" + la + fmt.Sprint(s.configured)
 	}
 	m.OnTransition = func(s *sys, hist []int, obs []string, rep *lib.Report) {
 		o := obs[len(obs)-1]
